@@ -44,7 +44,7 @@ def recase(rng, w):
     return "".join(ch.upper() if rng.random() < 0.5 else ch.lower() for ch in w)
 
 
-WORD = re.compile(r"[A-Za-z]+")
+WORD = re.compile(r"[^\W\d_]+")
 
 
 def rewrite_case(rng, text, names):
@@ -112,7 +112,7 @@ def base_text(rng):
                            f"10% of {L.num(rng)} {a}"]), set()
     if k < 0.55:
         return L.value_line(rng), set()
-    names = rng.sample(L.NAMES, 2)
+    names = rng.sample(L.NAMES + ["çay", "ölçü", "über", "prix été", "цена", "τιμή"], 2)
     n1, n2 = names
     t = f"{n1} = {L.value_line(rng)}\n{n2} = {n1}{rng.choice(['', ' * 2', ' + ' + n1])}\n{n2}{rng.choice(['', ' + 1', ' / 2'])}"
     ns = set()
@@ -173,6 +173,20 @@ def run(ctx, model_ok):
             ctx.oracle_fail({"class": "blank-or-comment-line", "what": f"a line of blanks / a comment evaluated to something: {v}",
                              "ops": [{"op": "exec", "lang": "en", "text": "7\n" + e + "\n8"}]})
     if model_ok:
+        # the model's lower-casing (SC.lowerChar) against the implementation's `char::to_lowercase` on every code point of the
+        # blocks the model covers (ASCII, Latin-1, Latin Extended-A, Greek and Cyrillic capitals, four compatibility letters)
+        uni = C.run_impl([{"op": "unicode"}])[0]
+        rust_lower = {cp: lows for cp, lows in uni.get("lower", [])}
+        cps = list(range(0x20, 0x180)) + list(range(0x384, 0x3AC)) + list(range(0x400, 0x430)) + [0x1E9E, 0x212A, 0x2126, 0x212B]
+        cps = [cp for cp in cps if cp != 0x3A3]   # capital sigma: `str::to_lowercase` has a position-dependent rule
+        ans = C.run_model([f"lower\t{wire.hx(chr(cp))}" for cp in cps])
+        for cp, a in zip(cps, ans):
+            want = "".join(chr(x) for x in rust_lower.get(cp, [cp]))
+            got = bytes.fromhex(a).decode("utf-8", "replace")
+            ctx.traces_validated += 1
+            if got != want:
+                ctx.disagree({"observable": "lower-casing of one character", "cp": hex(cp), "model": got, "impl": want})
+        ctx.dist["case-table-code-points"] = len(cps)
         co = wire.Corr(ctx, compare=("kind", "value"))
         sub = [p for p in pairs if p[2] == "all"]
         rng.shuffle(sub)
